@@ -144,7 +144,7 @@ def _gatt_prop(pid, target, rule, level_text, technique='generated C++ server de
 
 
 # ------------------------------------------------------------------------------------------------- targets and properties
-_Q = dict(cases=40000, size=100, max_seconds=150)
+_Q = dict(cases=120000, size=100, max_seconds=150)
 _T = dict(cases=600000, size=150, max_seconds=2400)
 
 _gatt_target('gatt_c01', 'default', 24, 200, quick=dict(_Q, opts={'max_ops': 40}), thorough=_T)
@@ -176,7 +176,7 @@ _gatt_prop('C03', 'gatt_c03',
                 'non-trivial = a secondary service lies in a walked range',
            level_text='reported groups must be exactly the declared primary services intersecting the range with their real end handles and UUIDs; sampling')
 
-_gatt_target('gatt_c04', 'handles', 32, 300, quick=dict(cases=40000, size=60, max_seconds=150, opts={'max_ops': 12}), thorough=dict(cases=60000, size=100, max_seconds=2400, opts={'max_ops': 12}))
+_gatt_target('gatt_c04', 'handles', 32, 300, quick=dict(cases=200000, size=60, max_seconds=150, opts={'max_ops': 12}), thorough=dict(cases=600000, size=100, max_seconds=2400, opts={'max_ops': 12}))
 _gatt_prop('C04', 'gatt_c04',
            rule='32 (quick) / 300 (thorough) generated declarations stressing attribute_handle<> on services and characteristics, attribute_handles<D,V,C>, '
                 'descriptors, includes (forward/backward, 16/128 bit), secondary services, GAP service on/off. Per declaration a complete enumeration: '
@@ -240,7 +240,7 @@ _gatt_prop('C11', 'gatt_c11',
            level_text='no second indication between an indication and its confirmation; bounded liveness: every request that stayed sendable is transmitted during '
                       'the drain; wrong-length confirmations are rejected; sampling')
 
-_gatt_target('gatt_c14', 'adv', 32, 300, quick=dict(cases=24000, size=100, max_seconds=150, opts={'max_ops': 40}), thorough=dict(cases=200000, size=100, max_seconds=2400, opts={'max_ops': 64}))
+_gatt_target('gatt_c14', 'adv', 32, 300, quick=dict(cases=200000, size=100, max_seconds=150, opts={'max_ops': 40}), thorough=dict(cases=1000000, size=100, max_seconds=2400, opts={'max_ops': 64}))
 _gatt_prop('C14', 'gatt_c14',
            rule='declarations over names (0..40 chars), appearance, 16/128-bit service lists (automatic and explicit), connection interval range, custom '
                 'advertising / scan response data x buffer sizes 0..31 for advertising_data() and scan_response_data() into exact-size heap buffers; '
